@@ -90,27 +90,28 @@ PROPS = {
         streams=elastic_streams("all", 4000, 120000),
         level="proof",
         level_text="Lean theorems about the executable model of einteger (limb lists, any limb width), edecimal (digit lists) and "
-                   "erational against Int/Rat arithmetic; the model transcribes the pinned loops including their defects, the "
+                   "erational against Int/Rat arithmetic; the model transcribes the current loops including their remaining defects, the "
                    "compiled headers are tied to it by grid + structured differential transcripts (operands of 1..60 limbs, "
                    "chains of 1..50 operations), every implementation output is judged against exact Int/Rat arithmetic",
         level_note="PROVED for every limb width / every length / every sign unless stated: einteger + (C14_eint_add); - outside "
-                   "'negative lhs, non-negative rhs' (C14_eint_sub_partial + counterexample); the REPAIRED *= loop mulFixed "
-                   "(C14_eint_mul) and the PINNED loop for a right operand of <= 1 limb (C14_eint_mul_asIs_partial) + two-limb "
-                   "counterexample; << (C14_eint_shift), >> outside the block-move region (+ counterexample); comparisons of "
-                   "non-negative operands (+ counterexample); / % by a single-limb divisor on non-negative operands "
-                   "(C14_eint_divrem_partial; sign and Knuth-D counterexamples); decimal output and decimal parse "
-                   "(C14_eint_to_string, C14_eint_parse); operation histories (C14_history). edecimal + - * / % as integers "
-                   "(C14_edec_add/sub/mul/divrem, C14_edec_divrem_identity, C14_edec_history, C14_edec_to_string; printed -0 of "
-                   "an exact negative remainder is the D17 counterexample). erational + - * / exact, lowest terms, positive "
-                   "denominator, histories (C14_erat_ops/_lowest_terms/_positive_denominator/_history), zero printed 0/1 for + and - "
-                   "(C14_erat_zero_unique_partial), D17 counterexample for *. NOT proved: nothing positive can be proved about the "
-                   "Knuth-D branch of einteger::reduce as pinned (it is wrong; modelled bit for bit on uint64 arithmetic, known "
-                   "finding). trusted: Lean kernel, hand-written model, g++ 12.2, x86 shift-count masking for the undefined "
-                   "`uint32_t >> 32` in reduce()",
+                   "'negative lhs, non-negative rhs' (C14_eint_sub_partial + counterexample); * in full (C14_eint_mul: exact and "
+                   "no most-significant zero limb; the loop as repaired by bebe70a); << (C14_eint_shift), >> outside the "
+                   "block-move region (+ counterexample); comparisons of non-negative operands (+ counterexample); / % by a "
+                   "single-limb divisor on non-negative operands (C14_eint_divrem_partial; sign and Knuth-D counterexamples); "
+                   "decimal output and decimal parse (C14_eint_to_string, C14_eint_parse); operation histories (C14_history); "
+                   "uint64 wrap = arithmetic form for w<=32 (C14_eint_u64_steps). edecimal + - * / % as integers, comparisons, "
+                   "shifts (C14_edec_add/sub/mul/divrem/cmp/shift, C14_edec_divrem_identity, C14_edec_history, "
+                   "C14_edec_to_string; printed -0 of an exact negative remainder is the D17 counterexample, not repaired). "
+                   "erational + - * / exact, lowest terms, positive denominator, histories (C14_erat_ops/_lowest_terms/"
+                   "_positive_denominator/_history) and zero unique in full (C14_erat_zero_unique, _history; since 535b52e). "
+                   "NOT proved: nothing positive can be proved about the Knuth-D branch of einteger::reduce as it stands (it is "
+                   "wrong; modelled bit for bit on uint64 arithmetic, known finding). trusted: Lean kernel, hand-written model, "
+                   "g++ 12.2, x86 shift-count masking for the undefined `uint32_t >> 32` in reduce()",
         explanation="elastic types: Lean model of einteger<u8|u16|u32> (+= -= *= reduce <<= >>= comparisons parse print), edecimal "
                     "(+ - * long division unpad) and erational (cross multiplication, Euclid normalize) vs. Int/Rat; "
-                    "correspondence by operand grids and structured random operands/histories; known defects D16/D17 are "
-                    "reproduced bit for bit by the model and reported as KNOWN-FINDING by input class",
+                    "correspondence by operand grids and structured random operands/histories; the remaining known defects (D16b, "
+                    "edecimal D17) are reproduced bit for bit by the model and reported as KNOWN-FINDING by input class; "
+                    "D16a (bebe70a) and erational D17 (535b52e) are repaired and modelled as repaired",
         assumptions=["the compiled code behaves like the model on inputs that were not explored",
                      "einteger<uint32_t> divisions whose quotient-digit loop exceeds the harness CPU limit are not explored"],
         trusted=["x86-64 masks the shift count of `uint32_t >> 32` (undefined behaviour in einteger::reduce when the divisor is already normalised)"],
